@@ -168,27 +168,28 @@ func (ctx *Ctx) funcKey(fn *ssa.Function) string {
 
 func (ctx *Ctx) contractOf(fn *ssa.Function) *Contract {
 	if c, ok := ctx.cs.ByFunc[ctx.funcKey(fn)]; ok {
-		// type invariants of the parameters are added to written contracts too (once)
-		ctx.mu.Lock()
-		done := c.tiMerged
-		c.tiMerged = true
-		ctx.mu.Unlock()
-		if !done && !c.NoTypeInv {
-			if sc := ctx.synthContract(fn); sc != nil {
-				ctx.mu.Lock()
+		// type invariants of the parameters and schema clauses are added to written contracts too, exactly once; concurrent
+		// callers wait for the merge to be complete (a caller that saw a half-merged contract would prove or assume less)
+		c.mergeOnce.Do(func() {
+			sc := ctx.synthContract(fn)
+			if sc == nil {
+				return
+			}
+			if !c.NoTypeInv {
 				c.Requires = append(append([]*Clause{}, sc.Requires...), c.Requires...)
 				c.Ensures = append(c.Ensures, sc.Ensures...)
-				c.Assumes = append(c.Assumes, sc.Assumes...)
-				c.Defines = append(c.Defines, sc.Defines...)
-				for n, invs := range sc.Invs {
-					c.Invs[n] = append(c.Invs[n], invs...)
-				}
-				if c.Assigns == nil && sc.Assigns != nil {
-					c.Assigns = sc.Assigns
-				}
-				ctx.mu.Unlock()
+			} else {
+				// explicit contracts of the bits package carry their own invariants: only schema clauses would apply (none there)
 			}
-		}
+			c.Assumes = append(c.Assumes, sc.Assumes...)
+			c.Defines = append(c.Defines, sc.Defines...)
+			for n, invs := range sc.Invs {
+				c.Invs[n] = append(c.Invs[n], invs...)
+			}
+			if c.Assigns == nil && sc.Assigns != nil {
+				c.Assigns = sc.Assigns
+			}
+		})
 		return c
 	}
 	return ctx.synthContract(fn)
